@@ -21,12 +21,14 @@ package main
 //      target of an interface or function-value edge, closure, no caller at all) or when its
 //      callers have different anchors; otherwise it is the common anchor of its callers.  Moving
 //      a tagged statement into an unexported helper that only the old function calls therefore
-//      keeps its tag; a second caller with another anchor removes it.  Region kinds
+//      keeps its tag; a second caller with another anchor removes it (the wrappers that the
+//      compiler synthesises for promoted unexported methods, and that nothing calls, do not count).  Region kinds
 //      (region-after-nil-check, region-after-lookup-miss) are not extended: the region is a set
 //      of blocks of the named function (calls inside the region are followed by the Lean
 //      predicate through the call edges, as before).
 
 import (
+	"go/token"
 	"go/types"
 	"sort"
 
@@ -204,6 +206,9 @@ func (a *analyzer) computeAnchors() {
 			for c := range callers[fi] {
 				if c == fi {
 					continue
+				}
+				if c.fn.Synthetic != "" && len(callers[c]) == 0 && !a.addrTkn[c.fn] && !token.IsExported(c.fn.Name()) {
+					continue // a promoted-method wrapper of an unexported method that nothing calls
 				}
 				an := a.anchor[c]
 				if common == nil {
